@@ -165,7 +165,7 @@ def oracle(case, obs):
                 parked.pop(src, None)
         elif n == "kill":
             src = c[1]
-            if state[src] != "gone":
+            if state[src] not in ("gone", "dead"):       # a panicked task has ended already
                 state[src] = "gone"
                 parked.pop(src, None)
         elif n == "wait":
@@ -266,7 +266,10 @@ def gen_script(rng, mode="local", size=None):
         elif x < 0.90:
             s.append(["drop_handle", rng.randrange(max(1, nh_guess))])
         elif x < 0.93:
-            s.append([rng.choice(["abandon", "abandon", "kill"]) if mode == "local" else "kill", rng.randrange(nsrc)])
+            if mode == "local":
+                s.append([rng.choice(["abandon", "abandon", "kill"]), rng.randrange(nsrc)])
+            else:
+                s.append(["kill", 2 * rng.randrange((nsrc + 1) // 2)])      # hosts only
         elif live:
             b = rng.choice(live)
             live.remove(b)
@@ -308,9 +311,11 @@ def gen_vanish(rng, mode="local"):
             if mode == "local":
                 s.append(["abandon", rng.randrange(nsrc)])
         elif x < 0.85 and alive:
-            k = rng.choice(alive)
-            alive.remove(k)
-            s.append(["kill", k])
+            cand = [k for k in alive if mode == "local" or k % 2 == 0]     # Sim::crash: hosts only (even sources)
+            if cand:
+                k = rng.choice(cand)
+                alive.remove(k)
+                s.append(["kill", k])
         elif x < 0.92:
             s.append(["wait", rng.randrange(nb)])
             nh += 1
